@@ -601,6 +601,37 @@ def typekind_items():
         yield Item(["Debug"], "pub struct @N@<'a, T: 'a>(%s, ::core::marker::PhantomData<&'a T>);" % ty, ("typekind-generic", "debug", "'a,T", "plain", key))
 
 
+def usage_items():
+    """Generic items together with a use site that instantiates them with a type meeting exactly the documented
+    requirements (an impl that silently carries an extra bound only shows at such an instantiation). Real compiler only."""
+    def u(derives, body, tag):
+        return Item(derives, body, ("usage", tag, "T", "plain", "-"))
+    yield u(["Mul", "Div"], "#[allow(non_camel_case_types, non_snake_case, dead_code)] pub struct @N@_Only(pub u8);\n"
+            "impl ::core::ops::Mul<::rt::Scalar> for @N@_Only { type Output = @N@_Only; fn mul(self, _r: ::rt::Scalar) -> @N@_Only { self } }\n"
+            "impl ::core::ops::Div<::rt::Scalar> for @N@_Only { type Output = @N@_Only; fn div(self, _r: ::rt::Scalar) -> @N@_Only { self } }\n"
+            "#[allow(non_camel_case_types, non_snake_case)] @DERIVE@ pub struct @N@<T>(pub T);\n"
+            "#[allow(non_camel_case_types, non_snake_case, dead_code)] pub fn @N@_use(a: @N@<@N@_Only>, k: ::rt::Scalar) -> @N@<@N@_Only> { (a * k) / k }", "scalar-mul-only-scalar-impl")
+    yield u(["MulAssign"], "#[allow(non_camel_case_types, non_snake_case, dead_code)] pub struct @N@_Only(pub u8);\n"
+            "impl ::core::ops::MulAssign<::rt::Scalar> for @N@_Only { fn mul_assign(&mut self, _r: ::rt::Scalar) {} }\n"
+            "#[allow(non_camel_case_types, non_snake_case)] @DERIVE@ pub struct @N@<T> { pub a: T }\n"
+            "#[allow(non_camel_case_types, non_snake_case, dead_code)] pub fn @N@_use(a: &mut @N@<@N@_Only>, k: ::rt::Scalar) { *a *= k; }", "scalar-mul-assign-only-scalar-impl")
+    yield u(["Error", "Display", "Debug"], "#[allow(non_camel_case_types, non_snake_case, dead_code)] pub struct @N@_Opaque;\n"
+            "#[allow(non_camel_case_types, non_snake_case)] @DERIVE@ #[display(\"request {id} failed\")] pub struct @N@<Ctx> { id: u32, #[debug(skip)] context: Ctx }\n"
+            "#[allow(non_camel_case_types, non_snake_case, dead_code)] pub fn @N@_use() { fn is_error<E: ::std::error::Error>() {} is_error::<@N@<@N@_Opaque>>(); }", "error-param-without-fmt")
+    yield u(["Error", "Display", "Debug"], "#[allow(non_camel_case_types, non_snake_case, dead_code)] pub struct @N@_Opaque;\n"
+            "#[allow(non_camel_case_types, non_snake_case)] @DERIVE@ #[display(\"e\")] pub enum @N@<K> { Io(::std::fmt::Error), BadKey(#[error(not(source))] #[debug(skip)] K) }\n"
+            "#[allow(non_camel_case_types, non_snake_case, dead_code)] pub fn @N@_use() { fn is_error<E: ::std::error::Error>() {} is_error::<@N@<@N@_Opaque>>(); }", "error-enum-param-without-fmt")
+    yield u(["Display"], "#[allow(non_camel_case_types, non_snake_case, dead_code)] pub struct @N@_Opaque;\n"
+            "#[allow(non_camel_case_types, non_snake_case)] @DERIVE@ #[display(\"<{inner}>\", inner = 1 + 1)] pub struct @N@<T> { inner: T }\n"
+            "#[allow(non_camel_case_types, non_snake_case, dead_code)] pub fn @N@_use() { fn is_display<E: ::core::fmt::Display>() {} is_display::<@N@<@N@_Opaque>>(); }", "display-alias-shadows-field")
+    yield u(["Debug"], "#[allow(non_camel_case_types, non_snake_case, dead_code)] pub struct @N@_Opaque;\n"
+            "#[allow(non_camel_case_types, non_snake_case)] @DERIVE@ pub struct @N@<T> { #[debug(\"{secret}\", secret = \"***\")] secret: T, n: u8 }\n"
+            "#[allow(non_camel_case_types, non_snake_case, dead_code)] pub fn @N@_use() { fn is_debug<E: ::core::fmt::Debug>() {} is_debug::<@N@<@N@_Opaque>>(); }", "debug-alias-shadows-field")
+    yield u(["From", "Into"], "#[allow(non_camel_case_types, non_snake_case, dead_code)] pub struct @N@_Opaque;\n"
+            "#[allow(non_camel_case_types, non_snake_case)] @DERIVE@ pub struct @N@<T>(pub ::std::vec::Vec<T>);\n"
+            "#[allow(non_camel_case_types, non_snake_case, dead_code)] pub fn @N@_use(v: ::std::vec::Vec<@N@_Opaque>) -> ::std::vec::Vec<@N@_Opaque> { @N@::from(v).into() }", "from-into-opaque-param")
+
+
 def all_items():
     return list(itertools.chain(cross_items(), ops_items(), fmt_items(), conv_items(), deleg_items(), enum_access_items(), error_items(), special_items(), typekind_items()))
 
